@@ -52,7 +52,7 @@ Proof. intros O n tin tout ultra st L R H1 H2. exact (proj1 (C10_speculation_fre
    (C10_no_stale_attach), resources are conserved (C11x_conserve).
    C11x_progress (every non-final, non-failed reachable state has an enabled event) and
    termination are NOT proved for the decompressor.  For the source with `pos_eq` in the
-   second disjunct of can_emit() progress is REFUTED: SchedX/XF8Refuted.v
+   second disjunct of can_emit() progress is REFUTED: notes/XF8Refuted_before_fix.v
    (C11x_progress_refuted, finding F8: a rejected candidate at the minimum of emit_q blocks
    the reserved output slots for ever; reproduced on the binary, repair = pos_le,
    notes/fix_F8_deadlock.diff).  For the repaired guard the missing proof is the case
